@@ -2,6 +2,8 @@
 //
 //	c15 extract <repo> <ClientApiTable.json>   the code half of the table (go/ast, see extract.go)
 //	c15 run <c15_table.json> <rows.ndjson>     replay of the cases TLC generated from spec/net/ClientApi.tla
+//	c15 life <rows.ndjson>                     replay of the life-cycle cases (ServerRestart.tla, ClientStop.tla,
+//	                                           KeepAliveTimer.tla), see life.go
 //
 // Every case (API call, peer script) runs on a real ouroboros.Connection over an
 // in-memory pipe with fragmented reads; the other end is a raw segment-level
@@ -209,6 +211,8 @@ func (r *caseRun) options(a net_Conn, errCh chan error) []ouroboros.ConnectionOp
 		opts = append(opts, ouroboros.WithNodeToNode(true), ouroboros.WithPeerSharing(true), ouroboros.WithKeepAlive(true))
 	case "ntn-server":
 		opts = append(opts, ouroboros.WithNodeToNode(true), ouroboros.WithPeerSharing(true), ouroboros.WithServer(true))
+	case "ntc-server":
+		opts = append(opts, ouroboros.WithServer(true))
 	}
 	return opts
 }
@@ -794,9 +798,13 @@ func main() {
 		extract(os.Args[2], os.Args[3])
 		return
 	}
+	if len(os.Args) >= 3 && os.Args[1] == "life" {
+		lifeMain(os.Args[2]) // server restart, client Stop, keep-alive timer (life*.go)
+		return
+	}
 	rep := vh.NewReporter()
 	if len(os.Args) < 4 || os.Args[1] != "run" {
-		rep.Dead("usage: c15 extract <repo> <hand.json> | c15 run <table.json> <rows.ndjson>")
+		rep.Dead("usage: c15 extract <repo> <hand.json> | c15 run <table.json> <rows.ndjson> | c15 life <rows.ndjson>")
 	}
 	if ms, err := strconv.Atoi(os.Getenv("VERIF_C15_HANG_MS")); err == nil && ms > 0 {
 		waitReturnShort = time.Duration(ms) * time.Millisecond
